@@ -18,6 +18,21 @@ RESET_EXPECT = {
 }
 
 
+PROCESS_SHAPE = """
+EOS_TTYPE = EOS_TUPLE
+for (ttype, value) in stream:
+    if self.consume_ws and ttype not in EOS_TTYPE:
+        yield sql.Statement(self.tokens)
+        self._reset()
+    self.level += self._change_splitlevel(ttype, value)
+    self.tokens.append(sql.Token(ttype, value))
+    if TERMINATOR_TEST:
+        self.consume_ws = True
+if self.tokens and (not all((t.is_whitespace for t in self.tokens))):
+    yield sql.Statement(self.tokens)
+"""
+
+
 def generate():
     assert_repo()
     from sqlparse.engine import statement_splitter as ss
@@ -91,6 +106,17 @@ def generate():
                           (ast.unparse(tail[0].test) if tail else 'missing'))
     if eos is None or term is None or yield_test is None:
         raise Unsupported('process: EOS_TTYPE / terminator test / yield test not found')
+    # the ORDER of the steps of the loop body (yield + reset, level change, append, terminator test): the hand-written
+    # process loop of Split/Splitter.v was written from exactly this shape
+    pb = [n for n in p.body if not (isinstance(n, ast.Expr) and isinstance(n.value, ast.Constant))]
+    shape = ast.parse(ast.unparse(ast.Module(body=pb, type_ignores=[])))
+    for n in ast.walk(shape):
+        if isinstance(n, ast.Assign) and ast.unparse(n.targets[0]) == 'EOS_TTYPE':
+            n.value = ast.Name(id='EOS_TUPLE', ctx=ast.Load())
+        if isinstance(n, ast.If) and [ast.unparse(x) for x in n.body] == ['self.consume_ws = True']:
+            n.test = ast.Name(id='TERMINATOR_TEST', ctx=ast.Load())
+    if ast.dump(ast.parse(ast.unparse(shape))) != ast.dump(ast.parse(PROCESS_SHAPE)):
+        raise Unsupported('process: the loop differs from the shape the model was written from:\n' + ast.unparse(shape))
     et0 = ExprTr({}, fname='process')
     eos_e, eos_t = et0.tr(eos)
     if eos_t != Ty.TTYPES:
